@@ -1,4 +1,6 @@
-import PdshVerif.Dsh.Fan
+import PdshVerif.Dsh.FanG
+import PdshVerif.Dsh.FanRelay
+import PdshVerif.Base.Hex
 import Driver.Util
 
 /-! engine `fan`: trace acceptor for the projected traces of the `sched` harness.
@@ -8,44 +10,87 @@ import Driver.Util
                                      parked-unsignalled threads, threads blocked on something the
                                      model does not know (thd_mutex, poll, ...)   -> ok | reject ..
     ev D <lock|wait|wake 0|wake 1|relock|create i|unlock|return>                  -> ok | reject ..
-    ev W<i> <connectBegin|connectEnd|destroyBegin|destroyEnd|lock|signal|unlock>  -> ok | reject ..
+    ev W<i> <connectBegin|connectEnd|destroyBegin|destroyEnd|lock|signal|broadcast|unlock>  -> ok | reject ..
     end <ok|deadlock|other>          ok: the model must be Final; deadlock: nothing enabled
+    RELAY MODE (the protocol composed with the relay, `Dsh/FanRelay.lean`, the LTS of Props/C03 `EndToEnd`):
+    initr <if|while> <f> <N> <sopt>  start a new trace in relay mode                     -> ok
+    rd W<i> <0|1> <hex|->            worker i read a chunk from its stdout (0) / stderr (1)  -> ok | reject ..
+    fin W<i> <0|1>                   that stream is over (EOF or error seen, descriptor closed) -> ok | reject ..
+    cfail W<i>                       rcmd_connect of target i failed: no streams            -> ok | reject ..
+    (in relay mode every `ev` goes through `FanRelay.step`: a worker may leave its read loop only when its polled
+    streams are over, and reads happen only inside the loop)
     After a reject every line up to the next `init` answers `skip`.
-    The transition function is `PdshVerif.Dsh.Fan.step`, the one the theorems are about. -/
+    The transition function is `PdshVerif.Dsh.FanG.step`, the one the theorems are about: the LTS with the
+    signalling discipline left open.  An observed call is mapped to a label by what it DOES in the state it is made
+    in: `pthread_mutex_unlock(threadcount_mutex)` by a worker that has not yet made its wake-up call is
+    `unlockFirst`, otherwise `unlock`; `pthread_cond_signal` / `pthread_cond_broadcast` on threadcount_cond (the same
+    transition: the dispatcher is the only waiter, any other waiter is rejected as an unknown event) by a worker
+    that has already unlocked is `signalAfter`, otherwise `signal`.  At most one of the two candidates is enabled in
+    any state (their preconditions are different program counters). -/
 namespace Driver.FanDrv
-open PdshVerif.Dsh.Fan
+open PdshVerif.Dsh.FanG
 
 structure Acc where
   st : Option St := none
   dead : Bool := false
+  relay : Bool := false
+  evs : List (PdshVerif.Relay.Key × PdshVerif.Relay.LEv) := []
+  sopt : Bool := false
+  nofd : List Nat := []
+
+open PdshVerif.Dsh in
+def Acc.rst (a : Acc) (s : St) : FanRelay.St := { fan := s, evs := a.evs, sopt := a.sopt, nofd := a.nofd }
+
+open PdshVerif.Dsh in
+def Acc.ofRst (a : Acc) (r : FanRelay.St) : Acc := { a with st := some r.fan, evs := r.evs, nofd := r.nofd }
 
 def parseW (t : String) : Option Nat :=
   if t.startsWith "W" then (t.drop 1).toNat? else none
 
 def names (t : String) : List String := if t = "-" then [] else t.splitOn ","
 
-def parseLabel : List String → Option Label
-  | ["D", "lock"] => some (.d .lock)
-  | ["D", "wait"] => some (.d .wait)
-  | ["D", "wake", "0"] => some (.d (.wake false))
-  | ["D", "wake", "1"] => some (.d (.wake true))
-  | ["D", "relock"] => some (.d .relock)
-  | ["D", "create", j] => j.toNat?.map fun j => .d (.create j)
-  | ["D", "unlock"] => some (.d .unlock)
-  | ["D", "return"] => some (.d .ret)
+/-- the labels an observed call can stand for (see the header); [] = not an event of this LTS -/
+def parseLabels : List String → List Label
+  | ["D", "lock"] => [.d .lock]
+  | ["D", "wait"] => [.d .wait]
+  | ["D", "wake", "0"] => [.d (.wake false)]
+  | ["D", "wake", "1"] => [.d (.wake true)]
+  | ["D", "relock"] => [.d .relock]
+  | ["D", "create", j] => (j.toNat?.map fun j => Label.d (.create j)).toList
+  | ["D", "unlock"] => [.d .unlock]
+  | ["D", "return"] => [.d .ret]
   | [t, a] =>
     match parseW t with
-    | none => none
+    | none => []
     | some i =>
       match a with
-      | "connectBegin" => some (.w i .connectBegin)
-      | "connectEnd" => some (.w i .connectEnd)
-      | "destroyBegin" => some (.w i .destroyBegin)
-      | "destroyEnd" => some (.w i .destroyEnd)
-      | "lock" => some (.w i .lock)
-      | "signal" => some (.w i .signal)
-      | "unlock" => some (.w i .unlock)
-      | _ => none
+      | "connectBegin" => [.w i .connectBegin]
+      | "connectEnd" => [.w i .connectEnd]
+      | "destroyBegin" => [.w i .destroyBegin]
+      | "destroyEnd" => [.w i .destroyEnd]
+      | "lock" => [.w i .lock]
+      | "signal" | "broadcast" => [.w i .signal, .w i .signalAfter]
+      | "unlock" => [.w i .unlock, .w i .unlockFirst]
+      | _ => []
+  | _ => []
+
+/-- perform the observed call: the first candidate label that is enabled -/
+def stepObserved (s : St) (ls : List Label) : Option St := ls.findSome? (step s)
+
+open PdshVerif.Dsh in
+/-- the same in relay mode -/
+def stepObservedR (r : FanRelay.St) (ls : List Label) : Option FanRelay.St :=
+  ls.findSome? fun l => FanRelay.step r (.fan l)
+
+open PdshVerif.Dsh in
+/-- a relay line: which label of the composed LTS it stands for -/
+def parseRelay : List String → Option FanRelay.Label
+  | ["rd", w, strm, hx] =>
+    match parseW w, PdshVerif.Hex.decode (if hx = "-" then "" else hx) with
+    | some i, some b => some (.ev (i, strm = "1") (.feed b))
+    | _, _ => none
+  | ["fin", w, strm] => (parseW w).map fun i => .ev (i, strm = "1") .finish
+  | ["cfail", w] => (parseW w).map .cfail
   | _ => none
 
 def enabledNames (s : St) : List String :=
@@ -54,7 +99,8 @@ def enabledNames (s : St) : List String :=
 
 def showW : W → String
   | .idle => "idle" | .started => "started" | .connecting => "connecting" | .connected => "connected"
-  | .tearing => "tearing" | .torn => "torn" | .locked => "locked" | .signaled => "signaled" | .done => "done"
+  | .tearing => "tearing" | .torn => "torn" | .locked => "locked" | .signaled => "signaled"
+  | .released => "released" | .done => "done"
 
 def showDPC : DPC → String
   | .top => "top" | .wait => "wait" | .parked => "parked" | .woken => "woken" | .create => "create"
@@ -93,6 +139,21 @@ def stepLine (a : Acc) (line : String) : Acc × String :=
       let v := if v = "if" then Variant.ifWait else Variant.whileWait
       ({ st := some (init v f n), dead := false }, "ok")
     | _, _ => (a, "bad-line")
+  | ["initr", v, f, n, sopt] =>
+    match f.toNat?, n.toNat? with
+    | some f, some n =>
+      let v := if v = "if" then Variant.ifWait else Variant.whileWait
+      ({ st := some (init v f n), dead := false, relay := true, evs := [], sopt := sopt = "1", nofd := [] }, "ok")
+    | _, _ => (a, "bad-line")
+  | "rd" :: _ | "fin" :: _ | "cfail" :: _ =>
+    if a.dead then (a, "skip") else
+    match a.st, parseRelay (Driver.words line) with
+    | some s, some l =>
+      if !a.relay then (a, "bad-line") else
+      match PdshVerif.Dsh.FanRelay.step (a.rst s) l with
+      | some r => (a.ofRst r, "ok")
+      | none => ({ a with dead := true }, s!"reject relay event not enabled in the composed model: {line} ({showSt s})")
+    | _, _ => (a, "bad-line")
   | "st" :: rest =>
     if a.dead then (a, "skip") else
     match a.st, rest with
@@ -103,12 +164,20 @@ def stepLine (a : Acc) (line : String) : Acc × String :=
     | _, _ => (a, "bad-line")
   | "ev" :: rest =>
     if a.dead then (a, "skip") else
-    match a.st, parseLabel rest with
-    | some s, some l =>
-      match step s l with
+    match a.st, parseLabels rest with
+    | _, [] => ({ a with dead := true }, "reject unknown event " ++ " ".intercalate rest)
+    | some s, ls =>
+      if a.relay then
+        match stepObservedR (a.rst s) ls with
+        | some r => (a.ofRst r, "ok")
+        | none =>
+          let why := if (stepObserved s ls).isSome then " (enabled in the protocol LTS, refused by the composition: the worker leaves its read loop before its polled streams are over)" else ""
+          ({ a with dead := true }, s!"reject not enabled in the model{why}: {" ".intercalate rest} ({showSt s})")
+      else
+      match stepObserved s ls with
       | some s' => ({ a with st := some s' }, "ok")
       | none => ({ a with dead := true }, s!"reject not enabled in the model: {" ".intercalate rest} ({showSt s})")
-    | _, _ => ({ a with dead := true }, "reject unknown event " ++ " ".intercalate rest)
+    | none, _ => ({ a with dead := true }, "reject unknown event " ++ " ".intercalate rest)
   | ["end", status] =>
     if a.dead then (a, "skip") else
     match a.st with
